@@ -134,8 +134,10 @@ def check_parity_of_vector(
         return np.ones(bitstrings_vector.shape[0])
 
     # Check if an even number of the marked qubits of each bitstring are in the 1 state
+    # (summed as signed integers: parities of unsigned bits would wrap around when
+    # callers subtract them)
     bitstring_subset = bitstrings_vector[:, marked_qubits]
-    return (bitstring_subset.sum(axis=1) + 1) % 2
+    return (bitstring_subset.sum(axis=1, dtype=int) + 1) % 2
 
 
 def get_parities_from_measurements(
